@@ -2,7 +2,7 @@
    hook) against the model's infer / infer_detailed / common / generalize / data_asg / rich_asg, compared by
    structural equality of `ty`. *)
 From Coq Require Import ZArith NArith Bool List.
-From PcoreV Require Import Model.Base Model.Ty Model.Lattice Model.Infer Corr.CorrC01.
+From PcoreV Require Import Model.Base Model.Ty Model.Lattice Model.Infer Model.InferHist Corr.CorrC01.
 Import ListNotations.
 
 (* (value, observed v.PType(), observed DetailedValueType(v)) *)
@@ -26,3 +26,11 @@ Definition generalize_mismatches (cs : list (ty * ty * (bool * bool))) : list N 
 Definition alias_check (o : oracle) (c : ty * ty * (bool * bool)) : bool :=
   Bool.eqb (data_asg (rx_of o) (fst (fst c))) (fst (snd c)) && Bool.eqb (rich_asg (rx_of o) (fst (fst c))) (snd (snd c)).
 Definition alias_mismatches (o : oracle) (cs : list (ty * ty * (bool * bool))) : list N := failing (alias_check o) cs.
+
+(* (objects, operations, the types the returned objects hold at the END of the history): the cache model
+   Model/InferHist.v `run` against the implementation; by C04_history_pure `run` is the pure `spec_run` *)
+Definition hist_check (o : oracle) (c : list node * list op * list ty) : bool :=
+  let ns := fst (fst c) in
+  let ops := snd (fst c) in
+  wf_dag ns && forallb (op_ok ns) ops && list_eqb ty_eqb (snd (run (rx_of o) ns ops)) (snd c).
+Definition hist_mismatches (o : oracle) (cs : list (list node * list op * list ty)) : list N := failing (hist_check o) cs.
